@@ -124,7 +124,17 @@ def run(prop, tier, seed, replay):
                     with h5py.File(path, "w") as f:
                         f["ra"], f["dec"] = ra, dec
                 else:
-                    pq.write_table(pa.table({"ra": ra, "dec": dec}), path, row_group_size=rng.choice([1, 2, 5, 100]))
+                    tab = pa.table({"ra": ra, "dec": dec})
+                    if rng.random() < 0.5:
+                        pq.write_table(tab, path, row_group_size=rng.choice([1, 2, 5, 100]))
+                    else:           # row groups of differing sizes, a large one first
+                        with pq.ParquetWriter(path, tab.schema) as wr:
+                            at, first = 0, True
+                            while at < len(tab):
+                                k = rng.choice([7, 11]) if first else rng.choice([1, 2, 3])
+                                first = False
+                                wr.write_table(tab.slice(at, k))
+                                at += k
                 lens = []
                 with new_filereader(path, ra_name="ra", dec_name="dec", chunksize=c) as reader:
                     for _ in range(2):                       # two passes over the same reader
